@@ -324,7 +324,13 @@ func (lp *livePacket) convertToPages(pc *pageCache, skip int, ac AssemblerContex
 	current.prev = nil
 	first.ac = ac
 	numPages := 1
-	seq, bytes := lp.seq.Add(skip), lp.bytes[skip:]
+	if skip != 0 {
+		// consume the skipped bytes from the packet itself, as page.convertToPages
+		// does: cleanSG derives what was consumed from the change of length()
+		lp.bytes = lp.bytes[skip:]
+		lp.seq = lp.seq.Add(skip)
+	}
+	seq, bytes := lp.seq, lp.bytes
 	for {
 		length := min(len(bytes), pageBytes)
 		current.bytes = current.buf[:length]
